@@ -445,6 +445,10 @@ class MatrixBlocking(StateTracker):
             [0 for i in range(self.simulation.network.number_of_nodes)],
         ]
         self.increment = 1
+        self.blocked_individuals = [
+            [[] for i in range(self.simulation.network.number_of_nodes)]
+            for i in range(self.simulation.network.number_of_nodes)
+        ]
         self.history = [[self.simulation.current_time, self.hash_state()]]
 
     def change_state_accept(self, node, ind):
@@ -458,6 +462,7 @@ class MatrixBlocking(StateTracker):
         Changes the state of the system when a customer gets blocked.
         """
         self.state[0][node.id_number - 1][destination.id_number - 1].append(self.increment)
+        self.blocked_individuals[node.id_number - 1][destination.id_number - 1].append(ind)
         self.increment += 1
 
     def change_state_release(self, node, destination, ind, blocked):
@@ -467,16 +472,21 @@ class MatrixBlocking(StateTracker):
         if blocked:
             self.state[-1][node.id_number - 1] -= 1
             self.increment -= 1
-            position = self.find_blocked_position_and_pop(node, destination)
+            position = self.find_blocked_position_and_pop(node, destination, ind)
             self.adjust_positions(position)
         else:
             self.state[-1][node.id_number - 1] -= 1
 
-    def find_blocked_position_and_pop(self, node, destination):
+    def find_blocked_position_and_pop(self, node, destination, ind=None):
         """
-        Finds the position of the next customer to unblock.
+        Finds the position of the customer to unblock (the first
+        one blocked from node to destination if not told which).
         """
-        position = self.state[0][node.id_number - 1][destination.id_number - 1].pop(0)
+        blocked = self.blocked_individuals[node.id_number - 1][destination.id_number - 1]
+        index = blocked.index(ind) if ind in blocked else 0
+        if blocked:
+            blocked.pop(index)
+        position = self.state[0][node.id_number - 1][destination.id_number - 1].pop(index)
         return position
 
     def adjust_positions(self, position):
